@@ -1,3 +1,4 @@
+import GE.Model.Rlm
 /-!
 Model of what the generated code and the template runtime do to the shadow tree, at the level of template
 structure (`proc_gen/tag.rs` + `glass-easel/src/tmpl/proc_gen_wrapper.ts`: `handleChildrenCreation`,
@@ -34,6 +35,12 @@ structure Sem (E V T : Type) where
   dirty : E → T → List T → Bool      -- the guard of a binding
   treeOf : E → T → List T → T        -- the update-path tree of a list expression
   child : T → V → T                  -- `tree[index]`
+  -- lists with `wx:key`
+  rawKey : String → V → String       -- the key of an item (`String(item[key])`, `*this`: the item)
+  isAll : T → Bool                   -- `tree === true`
+  isNone : T → Bool                  -- `tree === undefined`
+  keyMarks : String → T → Bool       -- does this subtree mark the key field (any subtree does for `*this`)
+  anyMarked : String → T → Bool      -- is some child of the list's tree `true` or marking the key field
 
 mutual
 inductive Tpl (E : Type) where
@@ -44,6 +51,8 @@ inductive Tpl (E : Type) where
   | cond (branches : Branches E)
   /-- `wx:for` without `wx:key` -/
   | loop (list : E) (body : Tpls E)
+  /-- `wx:for` with `wx:key` -/
+  | loopK (list : E) (key : String) (body : Tpls E)
 inductive Tpls (E : Type) where
   | nil
   | cons (t : Tpl E) (r : Tpls E)
@@ -60,6 +69,8 @@ inductive Node (V : Type) where
   | virt (born : Nat) (children : Nodes V)
   | ifn (born : Nat) (key : Nat) (children : Nodes V)
   | forn (born : Nat) (items : Items V)
+  /-- a keyed list remembers the keys of its items (as computed, before they are made unique) -/
+  | fornK (born : Nat) (raw : List String) (items : Items V)
 inductive Nodes (V : Type) where
   | nil
   | cons (n : Node V) (r : Nodes V)
@@ -96,6 +107,9 @@ def create (s : Sem E V T) (now : Nat) (D : V) (sc : List V) : Tpl E → Node V
     .ifn now k (createBr s now D sc bs k 1)
   | .loop l body =>
     .forn now (mkItems now (fun a x => createL s now D (sc ++ [a, x]) body) (s.items (s.eval l D sc)))
+  | .loopK l key body =>
+    let its := s.items (s.eval l D sc)
+    .fornK now (its.map fun p => s.rawKey key p.1) (mkItems now (fun a x => createL s now D (sc ++ [a, x]) body) its)
 def createL (s : Sem E V T) (now : Nat) (D : V) (sc : List V) : Tpls E → Nodes V
   | .nil => .nil
   | .cons t r => .cons (create s now D sc t) (createL s now D sc r)
@@ -110,14 +124,52 @@ def updAttrs (s : Sem E V T) (D : V) (sc : List V) (U : T) (su : List T) : List 
   | a :: r, [] => (a.1, s.eval a.2 D sc) :: updAttrs s D sc U su r []
   | a :: r, o :: r' => (a.1, if s.dirty a.2 U su then s.eval a.2 D sc else o.2) :: updAttrs s D sc U su r r'
 
-/-- `RangeListManager.diff` without a key: positions are matched one by one -/
-def zipItems (s : Sem E V T) (now : Nat) (L : T) (upd : V → V → T → T → Nodes V → Nodes V) (mk : V → V → Nodes V) :
+/-- `RangeListManager.diff` without a key (and with a key when the list's tree is `undefined`): positions are matched one by one;
+`treeAt x` is the tree handed to a position whose index `x` is unchanged -/
+def zipItems (s : Sem E V T) (now : Nat) (treeAt : V → T) (upd : V → V → T → T → Nodes V → Nodes V) (mk : V → V → Nodes V) :
     List (V × V) → Items V → Items V
   | [], _ => .nil
-  | (a, x) :: r, .nil => .cons now x (mk a x) (zipItems s now L upd mk r .nil)
+  | (a, x) :: r, .nil => .cons now x (mk a x) (zipItems s now treeAt upd mk r .nil)
   | (a, x) :: r, .cons b ox och orest =>
     let changed := !(s.same x ox)
-    .cons b x (upd a x (if changed then s.all else s.child L x) (if changed then s.all else s.none) och) (zipItems s now L upd mk r orest)
+    .cons b x (upd a x (if changed then s.all else treeAt x) (if changed then s.all else s.none) och) (zipItems s now treeAt upd mk r orest)
+
+/-- how `RangeListManager` classifies a subtree -/
+def subMark (s : Sem E V T) (key : String) (t : T) : GE.Rlm.Mark :=
+  if s.isNone t then .none else if s.isAll t then .all else .sub (s.keyMarks key t)
+
+/-- the tree handed to the item with unique key `k` and index `x` of a keyed list (`need`: the transformation of the tree is needed;
+`rold`, `rnew`: the keys that were renamed to make them unique in the old / new list) -/
+def itemTree (s : Sem E V T) (key : String) (L : T) (need : Bool) (rold rnew : List String) (k : String) (x : V) : T :=
+  if s.isAll L then s.all
+  else if need then
+    if k ∈ rold ∨ k ∈ rnew then s.all
+    else match subMark s key (s.child L x) with
+      | .none => s.none
+      | .all => s.all
+      | .sub true => s.all
+      | .sub false => s.child L x
+  else s.child L x
+
+def getItem : Items V → Nat → Option (Nat × V × Nodes V)
+  | .nil, _ => none
+  | .cons b x ch _, 0 => some (b, x, ch)
+  | .cons _ _ _ r, n + 1 => getItem r n
+
+/-- the old item node that carried the unique key `k` (`oldKeyMap[k]`) -/
+def lookupOld (ouk : List String) (oitems : Items V) (k : String) : Option (Nat × V × Nodes V) :=
+  if ouk.idxOf k < ouk.length then getItem oitems (ouk.idxOf k) else none
+
+/-- `RangeListManager.diff` with a key: every new item takes the node that carried its unique key (`ouk`: the old unique keys), else a new one;
+the final order is the new list's (the moves that get there are not modelled) -/
+def keyedItems (s : Sem E V T) (now : Nat) (ouk : List String) (oitems : Items V) (tr : String → V → T)
+    (upd : V → V → T → T → Nodes V → Nodes V) (mk : V → V → Nodes V) : List (V × V) → List String → Items V
+  | (a, x) :: r, k :: ks =>
+    match lookupOld ouk oitems k with
+    | some (b, ox, och) =>
+      .cons b x (upd a x (tr k x) (if s.same x ox then s.none else s.all) och) (keyedItems s now ouk oitems tr upd mk r ks)
+    | none => .cons now x (mk a x) (keyedItems s now ouk oitems tr upd mk r ks)
+  | _, _ => .nil
 
 mutual
 def update (s : Sem E V T) (now : Nat) (D : V) (sc : List V) (U : T) (su : List T) : Tpl E → Node V → Node V
@@ -129,10 +181,19 @@ def update (s : Sem E V T) (now : Nat) (D : V) (sc : List V) (U : T) (su : List 
     if k' = k then .ifn b k (updateBr s now D sc U su bs k 1 och)
     else .ifn now k' (createBr s now D sc bs k' 1)
   | .loop l body, .forn b oitems =>
-    .forn b (zipItems s now (s.treeOf l U su)
+    .forn b (zipItems s now (s.child (s.treeOf l U su))
       (fun a x ti tx och => updateL s now D (sc ++ [a, x]) U (su ++ [ti, tx]) body och)
       (fun a x => createL s now D (sc ++ [a, x]) body)
       (s.items (s.eval l D sc)) oitems)
+  | .loopK l key body, .fornK b oraw oitems =>
+    let L := s.treeOf l U su
+    let its := s.items (s.eval l D sc)
+    let nraw := its.map fun p => s.rawKey key p.1
+    let upd := fun a x ti tx och => updateL s now D (sc ++ [a, x]) U (su ++ [ti, tx]) body och
+    let mk := fun a x => createL s now D (sc ++ [a, x]) body
+    if s.isNone L then .fornK b nraw (zipItems s now (fun _ => s.none) upd mk its oitems)
+    else .fornK b nraw (keyedItems s now (GE.Rlm.uniq oraw) oitems
+      (itemTree s key L (s.anyMarked key L) (GE.Rlm.renamed oraw) (GE.Rlm.renamed nraw)) upd mk its (GE.Rlm.uniq nraw))
   -- (a node that was not made from this template: cannot happen, see `renders`)
   | t, _ => create s now D sc t
 def updateL (s : Sem E V T) (now : Nat) (D : V) (sc : List V) (U : T) (su : List T) : Tpls E → Nodes V → Nodes V
@@ -161,6 +222,9 @@ def renders (s : Sem E V T) (D : V) (sc : List V) : Tpl E → Node V → Prop
   | .cond bs, .ifn _ k nch => k = branchKey s D sc bs ∧ rendersBr s D sc bs k 1 nch
   | .loop l body, .forn _ items =>
     rendersItems (fun a x nch => rendersL s D (sc ++ [a, x]) body nch) (s.items (s.eval l D sc)) items
+  | .loopK l key body, .fornK _ raw items =>
+    raw = (s.items (s.eval l D sc)).map (fun p => s.rawKey key p.1) ∧
+    rendersItems (fun a x nch => rendersL s D (sc ++ [a, x]) body nch) (s.items (s.eval l D sc)) items
   | _, _ => False
 def rendersL (s : Sem E V T) (D : V) (sc : List V) : Tpls E → Nodes V → Prop
   | .nil, .nil => True
@@ -180,6 +244,7 @@ def Node.shape : Node V → Node V
   | .virt _ ch => .virt 0 ch.shape
   | .ifn _ k ch => .ifn 0 k ch.shape
   | .forn _ its => .forn 0 its.shape
+  | .fornK _ raw its => .fornK 0 raw its.shape
 def Nodes.shape : Nodes V → Nodes V
   | .nil => .nil
   | .cons n r => .cons n.shape r.shape
